@@ -777,6 +777,9 @@ impl<'a> LineBreaker<'a> {
                     let mut diffs = diffs.clone();
                     if let Some(elem) = elem {
                         // TeX.2021.837
+                        // Index of the first node that is discarded if a break occurs here.
+                        // For most breakpoints this is the break node itself.
+                        let mut discard_from = i;
                         match elem {
                             Discretionary(discretionary) => {
                                 // TeX.2021.840
@@ -816,19 +819,30 @@ impl<'a> LineBreaker<'a> {
                                         | Kern(ds::Kern { width, .. }) => *width,
                                     }
                                 }
-                            }
-                            Math(_math) => {
-                                // TODO when math node is fixed in boxworks crate.
-                            }
-                            Glue(glue) => {
-                                diffs.update_from_glue(&glue.value);
-                            }
-                            Kern(kern) => {
-                                if kern.kind == ds::KernKind::Explicit {
-                                    diffs.width -= kern.width;
-                                }
+                                // Nodes after the discretionary (and the nodes it replaces)
+                                // are discarded only if the post-break text is empty.
+                                discard_from = if discretionary.post_break.is_empty() {
+                                    j
+                                } else {
+                                    list.len()
+                                };
                             }
                             _ => {}
+                        }
+                        // The glue, penalty, math and explicit kern nodes from here up to the
+                        // first non-discardable node do not appear in the next line.
+                        for node in &list[discard_from.min(list.len())..] {
+                            match node {
+                                Glue(glue) => diffs.update_from_glue(&glue.value),
+                                Penalty(_) => {}
+                                Math(_math) => {
+                                    // TODO when math node is fixed in boxworks crate.
+                                }
+                                Kern(kern) if kern.kind == ds::KernKind::Explicit => {
+                                    diffs.width += kern.width;
+                                }
+                                _ => break,
+                            }
                         }
                     }
                     for fitness_class in [
